@@ -103,6 +103,7 @@ enum Timed {
     Change(usize),
     Fault(usize),
     WakeWriter,
+    Greeting,
 }
 
 #[derive(PartialEq, Eq, PartialOrd, Ord)]
@@ -366,8 +367,14 @@ impl World {
     /// Called once at the start: greeting, change events, time-triggered faults.
     pub fn start(&mut self) {
         let (g, meta) = self.mpd.greeting();
-        self.write_s2c(g, meta);
-        self.greeting_end = self.s2c.len();
+        if self.plan.handshake_delay_ms > 0 {
+            // a slow server: the greeting comes later
+            self.greeting_end = g.len();
+            self.schedule(self.plan.handshake_delay_ms as u64, Timed::Greeting);
+        } else {
+            self.write_s2c(g, meta);
+            self.greeting_end = self.s2c.len();
+        }
         let changes: Vec<u64> = self.plan.changes.iter().map(|c| c.at_ms).collect();
         for (i, at) in changes.into_iter().enumerate() {
             self.schedule(at, Timed::Change(i));
@@ -437,6 +444,12 @@ impl World {
                     self.apply(actions);
                 }
                 Timed::Fault(i) => self.fire_fault(i, None),
+                Timed::Greeting => {
+                    if self.s2c.is_empty() && !self.s2c_dead {
+                        let (g, meta) = self.mpd.greeting();
+                        self.write_s2c(g, meta);
+                    }
+                }
                 Timed::WakeWriter => {
                     if let Some(w) = self.writer_waker.take() {
                         w.wake();
